@@ -41,7 +41,9 @@ HOT = [
     # users/passwords that quote to NOTHING (lone surrogates are dropped), next to empty hosts and ports
     "x://\ud800@/p", "//\udc00@/p", "//\ud800@:/p", "foo://\udc80:@/", "foo://\udc80:pw@h/", "http://\ud800@example.com/", "foo://u:\udc80@:81/", "//\udc80:\udc81@",
     "http://XN--MNCHEN-3YA.DE/", "http://example.com.:80/", "foo://[::1]@example.com:8080/", "sqlite:////var/db", "mailto:", "tel:",
-    "http://h/%2e%2E/x", "http://h/a/../x", "http://h/x", "http://h/?a=1&a=2", "http://h/?a=%FF", "http://a%20b:p@h/", "http://a b:p@h/", "mailto:u@h", "http:x", "a%3Ab", "a:b", "x/y", "/x/y",
+    "http://h/%2e%2E/x", "http://h/a/../x", "http://h/x", "http://h/?a=1&a=2", "http://h/?a=%FF",
+    # queries in every SHAPE the pair parser distinguishes: bare flags (no '='), blank values, empty pieces, only separators, '+'/escapes, ';'
+    "http://example.com/p?flag", "http://h/?debug&verbose", "?x", "http://h/?a&b&a", "http://h/?a=&b=", "http://h/?&&", "http://h/?=", "http://h/?a;b", "http://h/?a=1;", "http://h/??", "/p?flag#f", "http://a%20b:p@h/", "http://a b:p@h/", "mailto:u@h", "http:x", "a%3Ab", "a:b", "x/y", "/x/y",
 ]
 HOSTS = ["example.com", "EXAMPLE.com", "exa mple", "a%zzb", "a%41b", "A_b.é", "é.com", "xn--9ca.com", "::1", "0:0:0:0:0:0:0:1", "[::1]", "fe80::1%eth0", "127.0.0.1", "a_b", "h", "", "a/b", "a@b", "℀.com"]
 USERS = ["u", "a%20b", "a b", "a@b", "a:b", "", None, "é", "%", "U"]
@@ -339,12 +341,12 @@ class Program:
             elif m == "with_path":
                 args = [r.choice(PATHS)]
             elif m in ("with_query", "extend_query", "update_query"):
-                args = [r.choice([None, "", "a=1", "a=2&b", {"t": "dict", "v": [["a", "x y"]]}, {"t": "dict", "v": []}, {"t": "list", "v": [{"t": "tuple", "v": ["b", "1"]}]},
+                args = [r.choice([None, "", "a=1", "a=2&b", "flag", "debug&level", "a=", "&", {"t": "dict", "v": [["a", "x y"]]}, {"t": "dict", "v": []}, {"t": "list", "v": [{"t": "tuple", "v": ["b", "1"]}]},
                                   {"t": "list", "v": [{"t": "tuple", "v": ["c", "3"]}]}, {"t": "list", "v": [{"t": "tuple", "v": ["d", "4"]}, {"t": "tuple", "v": ["e", "5"]}]},
                                   {"t": "tuple", "v": [{"t": "tuple", "v": ["f", "6"]}]}, {"t": "list", "v": [{"t": "tuple", "v": ["bad", None]}]},
                                   {"t": "mdict", "v": [["a", "1"], ["a", "2"]]}, {"t": "dict", "v": [["k", {"t": "list", "v": ["1", "2"]}]]}] + NUMERIC_QUERIES)]
             elif m == "without_query_params":
-                args = [r.choice(["a", "b", "zz"])]
+                args = [r.choice(["a", "b", "zz", "flag", "debug", "x"])]
             elif m == "with_fragment":
                 args = [r.choice(FRAGS)]
             elif m == "with_suffix":
